@@ -8,9 +8,12 @@
   `OnRecvPacket` unescrows or mints (transfer/keeper/relay.go); the stateful ICS-20 model
   (`Model/Ics20.lean`) is *defined* through the same two functions.
 
-  Result: the property holds for path-stable denominations on ibc-go formatted channel identifiers
-  (`*_partial` theorems) and is FALSE of the code in general — three kernel-checked witnesses, each
-  replayed against the real modules by the harness (`xfer` engine, group `findings`).
+  History: on the tree as found the property was FALSE (three kernel-checked witnesses, each reproduced
+  on the real code: DESIGN §6 F3 / F5 and a two-segment variant).  Two repairs were made
+  (4b2f809: `Transfer` rejects base denominations that would be re-parsed as a trace; 143f4d3:
+  `ParseDenomFromRecvPacket` takes ICS-20's decision on the parsed trace).  The theorems below are about
+  the repaired code and are FULL; the refutations of the pre-fix parser are kept as regression theorems
+  and the witnesses are replayed by the harness (`xfer` engine, group `findings`) on every run.
 -/
 import IbcVerif.Model.Denom
 import IbcVerif.Lemmas.Denom
@@ -18,142 +21,66 @@ import IbcVerif.Lemmas.DenomRl
 namespace IbcVerif.C42
 open IbcVerif IbcVerif.Xfer
 
-/-- what `MsgTransfer` validation lets through for a token `d` (msgs.go `validateIBCCoin`, msg_server.go
-    `TokenFromCoin` + `packetData.ValidateBasic`): a native coin denomination is a valid SDK/IBC
-    denomination not starting with "ibc/"; the packet path must parse to a valid `Denom`. -/
+/-- what `Transfer` lets through for a token `d` (msg_server.go: `TokenFromCoin`,
+    `ValidateBaseNotHopLike`, `packetData.ValidateBasic`; relay.go: stored vouchers):
+    the base is hop-free; the hops are '/'-free with channel identifiers in ibc-go's format (a native
+    token has none; a voucher's hops were produced by `ExtractDenomFromPath` and by prefixing this
+    chain's own channel identifier); and the path does not start with "ibc/" (a native coin
+    denomination starting with "ibc/" is looked up as a voucher by `TokenFromCoin`; a voucher's path
+    starts with this chain's transfer port, which is not literally named "ibc"). -/
 def SendAccepted (d : Denom) : Prop :=
-  (d.trace = [] → validIBCDenom d.base = true ∧ ibcSlash.isPrefixOf d.base = false) ∧
-  (extract d.path).validate = none
+  hopFreeBase d.base = true ∧
+  (∀ x ∈ d.trace, '/' ∉ x.port ∧ '/' ∉ x.chan ∧ isHopId x.chan = true) ∧
+  ibcSlash.isPrefixOf d.path = false
 
-/-- FULL statement, send side: for every token `Transfer` accepts, the rate limiter charges the coin
+/-- **Send side (full).**  For every token `Transfer` accepts, the rate limiter charges the coin
     denomination that ICS-20 escrows or burns. -/
-def rl_send_full (hashHex : Str → Str) : Prop :=
-  ∀ d : Denom, SendAccepted d → rlSendDenom hashHex d.path = ics20SendCoinDenom hashHex d
-
-/-- FULL statement, receive side: for every packet denomination ICS-20 accepts on any channel pair
-    with ICS-24-valid identifiers, the rate limiter charges the coin ICS-20 mints or unescrows. -/
-def rl_recv_full (hashHex : Str → Str) : Prop :=
-  ∀ sp sc dp dc s : Str, validPortId sp = true → validChannelId sc = true →
-    validPortId dp = true → isValidChannelID dc = true → (extract s).validate = none →
-    rlRecvDenom hashHex sp sc dp dc s = ics20RecvCoinDenom hashHex sp sc dp dc s
-
-/-- receive side restricted to counterparties that use ibc-go's identifier format -/
-def rl_recv_full_ibcgo (hashHex : Str → Str) : Prop :=
-  ∀ sp sc dp dc s : Str, validPortId sp = true → isValidChannelID sc = true →
-    validPortId dp = true → isValidChannelID dc = true → (extract s).validate = none →
-    rlRecvDenom hashHex sp sc dp dc s = ics20RecvCoinDenom hashHex sp sc dp dc s
-
-/-- **Send side (partial).**  For a path-stable token whose path does not start with "ibc/" (i.e. the
-    transfer port is not literally named "ibc") the rate limiter charges the coin ICS-20 moves. -/
-theorem rl_send_denom_eq_partial (hashHex : Str → Str) (d : Denom) (hs : PathStable d)
-    (hi : ibcSlash.isPrefixOf d.path = false) :
+theorem rl_send_denom_eq (hashHex : Str → Str) (d : Denom) (h : SendAccepted d) :
     rlSendDenom hashHex d.path = ics20SendCoinDenom hashHex d := by
+  obtain ⟨hb, hh, hi⟩ := h
+  have hs : PathStable d :=
+    pathStable_of_hopFree d (fun x hx => ⟨(hh x hx).1, (hh x hx).2.1⟩) (fun x hx => (hh x hx).2.2) hb
   unfold rlSendDenom ics20SendCoinDenom
   rw [hi, hs]
   simp
 
-/-- path-stability holds for every token with ibc-go formatted hops and a hop-free base — in
-    particular for every native denomination whose second '/'-segment is not `channel-N`/`<type>-N`. -/
-theorem rl_send_denom_eq_hopFree (hashHex : Str → Str) (d : Denom)
-    (hsep : ∀ x ∈ d.trace, '/' ∉ x.port ∧ '/' ∉ x.chan) (hid : ∀ x ∈ d.trace, isHopId x.chan = true)
-    (hb : hopFreeBase d.base = true) (hi : ibcSlash.isPrefixOf d.path = false) :
-    rlSendDenom hashHex d.path = ics20SendCoinDenom hashHex d :=
-  rl_send_denom_eq_partial hashHex d (pathStable_of_hopFree d hsep hid hb) hi
+/-- every native denomination that passes `Transfer`'s new guard is accepted in the above sense
+    (so the send theorem covers all natives, with any number of '/'-segments of any other shape) -/
+theorem native_accepted (base : Str) (hb : hopFreeBase base = true) (hi : ibcSlash.isPrefixOf base = false) :
+    SendAccepted ⟨[], base⟩ := by
+  refine ⟨hb, ?_, ?_⟩
+  · intro x hx; simp at hx
+  · simpa [Denom.path, Denom.isNative] using hi
 
-/-- **Receive side, unwinding (full for this branch).**  Whenever ICS-20 treats the packet as a
-    returning token (parsed trace starts with the packet's source hop) the rate limiter charges the
-    denomination ICS-20 unescrows. -/
-theorem rl_recv_unwind_eq (hashHex : Str → Str) (sp sc dp dc s : Str)
-    (hsp : '/' ∉ sp) (hsc : '/' ∉ sc)
-    (hv : (extract s).validate = none) (hp : (extract s).hasPrefix sp sc = true) :
-    rlRecvDenom hashHex sp sc dp dc s = ics20RecvCoinDenom hashHex sp sc dp dc s := by
-  obtain ⟨rest, hne, hsplit, hid, hex⟩ := extract_hasPrefix_decompose s sp sc hp
-  have hpre := stringPrefix_iff_hasPrefix s sp sc hsp hsc hid
-  rw [hp] at hpre
-  unfold rlRecvDenom ics20RecvCoinDenom
-  simp only [hpre, hp, if_true]
-  -- the string after the prefix is the join of the remaining segments
-  have hs : s = ((Hop.mk sp sc).str ++ ['/']) ++ joinWith '/' rest := by
-    have : s = joinWith '/' (sp :: sc :: rest) := by rw [← hsplit, join_split]
-    rw [this, joinWith_cons_of_ne_nil '/' sp _ (by simp), joinWith_cons_of_ne_nil '/' sc _ hne]
-    simp [Hop.str]
-  have hdrop : s.drop ((Hop.mk sp sc).str ++ ['/']).length = joinWith '/' rest := by
-    conv => lhs; rw [hs]
-    exact List.drop_left
-  rw [hdrop]
-  have hfree : ∀ p ∈ rest, '/' ∉ p := by
-    intro p hp'
-    apply not_mem_of_mem_split '/' s p
-    rw [hsplit]; simp [hp']
-  have hsr : splitOnChar '/' (joinWith '/' rest) = rest := split_join '/' rest hne hfree
-  rw [extract_of_split _ _ hsr]
-  have hirr : extractGo (decide (rest.length > 2)) rest = extractGo true rest := by
-    apply extractGo_long_irrelevant
-    intro p c heq
-    cases hc : isHopId c with
-    | false => rfl
-    | true =>
-      exfalso
-      rw [hex, heq] at hv
-      simp [extractGo, hc, Denom.validate, joinWith, goBlank] at hv
-  rw [hirr, hex]
-  simp
+/-- **Receive side (full).**  For every packet denomination, on any channel pair, the rate limiter
+    charges exactly the coin ICS-20 mints or unescrows: both parse the path with
+    `ExtractDenomFromPath` and test the first hop of the parsed trace. -/
+theorem rl_recv_denom_eq (hashHex : Str → Str) (sp sc dp dc s : Str) :
+    rlRecvDenom hashHex sp sc dp dc s = ics20RecvCoinDenom hashHex sp sc dp dc s := rfl
 
-/-- **Receive side, minting (partial).**  When ICS-20 mints a voucher (no returning prefix), the rate
-    limiter charges that voucher provided both channel identifiers are in ibc-go's format and the
-    packet denomination is not a two-segment string `x/channel-N` (`x/<type>-N`). -/
-theorem rl_recv_mint_eq_partial (hashHex : Str → Str) (sp sc dp dc s : Str)
-    (hsp : '/' ∉ sp) (hsc : '/' ∉ sc) (hdp : '/' ∉ dp) (hdc : '/' ∉ dc)
-    (hidS : isHopId sc = true) (hidD : isHopId dc = true)
-    (h2 : twoSegHopLike s = false) (hp : (extract s).hasPrefix sp sc = false) :
-    rlRecvDenom hashHex sp sc dp dc s = ics20RecvCoinDenom hashHex sp sc dp dc s := by
-  have hpre := stringPrefix_iff_hasPrefix s sp sc hsp hsc hidS
-  rw [hp] at hpre
-  unfold rlRecvDenom ics20RecvCoinDenom
-  simp only [hpre, hp, Bool.false_eq_true, if_false]
-  have e : (Hop.mk dp dc).str ++ '/' :: s = dp ++ '/' :: (dc ++ '/' :: s) := by simp [Hop.str]
-  rw [e, extract_cons_hop dp dc s hdp hdc hidD, extract_eq s, extractGo_long_irrelevant_of_not_twoSeg s h2]
+/-! ### regression: the witnesses that refuted the property before the repairs -/
 
-/-- **Receive side (partial), combined.** -/
-theorem rl_recv_denom_eq_partial (hashHex : Str → Str) (sp sc dp dc s : Str)
-    (hsp : '/' ∉ sp) (hsc : '/' ∉ sc) (hdp : '/' ∉ dp) (hdc : '/' ∉ dc)
-    (hidS : isHopId sc = true) (hidD : isHopId dc = true)
-    (hv : (extract s).validate = none) (h2 : twoSegHopLike s = false) :
-    rlRecvDenom hashHex sp sc dp dc s = ics20RecvCoinDenom hashHex sp sc dp dc s := by
-  cases hp : (extract s).hasPrefix sp sc with
-  | true => exact rl_recv_unwind_eq hashHex sp sc dp dc s hsp hsc hv hp
-  | false => exact rl_recv_mint_eq_partial hashHex sp sc dp dc s hsp hsc hdp hdc hidS hidD h2 hp
+/-- the statement the pre-fix receive parser was supposed to satisfy -/
+def rl_recv_full_prefix (hashHex : Str → Str) : Prop :=
+  ∀ sp sc dp dc s : Str, validPortId sp = true → validChannelId sc = true →
+    validPortId dp = true → isValidChannelID dc = true → (extract s).validate = none →
+    rlRecvDenomPreFix hashHex sp sc dp dc s = ics20RecvCoinDenom hashHex sp sc dp dc s
 
-/-! ### the full statements are false of the code -/
+/-- the same restricted to counterparties that use ibc-go's identifier format -/
+def rl_recv_full_prefix_ibcgo (hashHex : Str → Str) : Prop :=
+  ∀ sp sc dp dc s : Str, validPortId sp = true → isValidChannelID sc = true →
+    validPortId dp = true → isValidChannelID dc = true → (extract s).validate = none →
+    rlRecvDenomPreFix hashHex sp sc dp dc s = ics20RecvCoinDenom hashHex sp sc dp dc s
 
-/-- witness F3: a native denomination shaped like a voucher path -/
-def f3Denom : Denom := ⟨[], "transfer/channel-7/x".toList⟩
-
-theorem f3_accepted : SendAccepted f3Denom := by
-  refine ⟨fun _ => ⟨by decide, by decide⟩, by decide⟩
-
-/-- **F3 (send side).**  `Transfer` accepts the native coin `transfer/channel-7/x`; ICS-20 escrows the
-    coin `transfer/channel-7/x`, the rate limiter charges `ibc/HASH(transfer/channel-7/x)`. -/
-theorem rl_send_full_false (hashHex : Str → Str) : ¬ rl_send_full hashHex := by
-  intro h
-  have := h f3Denom f3_accepted
-  have e : extract f3Denom.path = ⟨[⟨"transfer".toList, "channel-7".toList⟩], "x".toList⟩ := by decide
-  unfold rlSendDenom ics20SendCoinDenom at this
-  rw [e] at this
-  have hi : ibcSlash.isPrefixOf f3Denom.path = false := by decide
-  rw [hi] at this
-  simp [Denom.ibcDenom, Denom.isNative, f3Denom] at this
-
-/-- **F5 (receive side).**  Counterparty channel identifier `mychannel00` (valid per ICS-24, not in
+/-- **F5 (pre-fix).**  Counterparty channel identifier `mychannel00` (valid per ICS-24, not in
     ibc-go's `channel-N` format), packet denomination `transfer/mychannel00/uatom`: ICS-20 does not
-    recognise a hop, treats the whole string as a base denomination and mints the voucher
-    `ibc/HASH(transfer/channel-0/transfer/mychannel00/uatom)`; the rate limiter's raw string-prefix test
-    fires and it charges `uatom`. -/
-theorem rl_recv_full_false (hashHex : Str → Str) : ¬ rl_recv_full hashHex := by
+    recognise a hop and mints `ibc/HASH(transfer/channel-0/transfer/mychannel00/uatom)`; the old raw
+    string-prefix test fired and charged `uatom`. -/
+theorem prefix_parser_refuted_foreign_id (hashHex : Str → Str) : ¬ rl_recv_full_prefix hashHex := by
   intro h
   have := h "transfer".toList "mychannel00".toList "transfer".toList "channel-0".toList
     "transfer/mychannel00/uatom".toList (by decide) (by decide) (by decide) (by decide) (by decide)
-  unfold rlRecvDenom ics20RecvCoinDenom at this
+  unfold rlRecvDenomPreFix ics20RecvCoinDenom at this
   have e1 : ((Hop.mk "transfer".toList "mychannel00".toList).str ++ ['/']).isPrefixOf
       "transfer/mychannel00/uatom".toList = true := by decide
   have e2 : extract (List.drop ((Hop.mk "transfer".toList "mychannel00".toList).str ++ ['/']).length
@@ -162,18 +89,17 @@ theorem rl_recv_full_false (hashHex : Str → Str) : ¬ rl_recv_full hashHex := 
   simp only [e1, e2, e3, if_true] at this
   simp [Denom.ibcDenom, Denom.isNative, Denom.hasPrefix] at this
 
-/-- **Two-segment bases (receive side, ibc-go formatted identifiers).**  Packet denomination
-    `ab/channel-1` (a native coin of the sender) received on `transfer/channel-5`: ICS-20 mints
-    `ibc/HASH(transfer/channel-5/ab/channel-1)`, the rate limiter parses the prefixed string into two
-    hops and an empty base and charges `ibc/HASH(transfer/channel-5/ab/channel-1/)` — a different
-    denomination as soon as the hash separates the two strings (SHA-256 does; replayed in the harness). -/
-theorem rl_recv_full_ibcgo_false (hashHex : Str → Str)
+/-- **Two-segment bases (pre-fix).**  Packet denomination `ab/channel-1` received on
+    `transfer/channel-5`: ICS-20 mints `ibc/HASH(transfer/channel-5/ab/channel-1)`, the old parser
+    re-parsed the prefixed string into two hops and an empty base and charged
+    `ibc/HASH(transfer/channel-5/ab/channel-1/)`. -/
+theorem prefix_parser_refuted_two_segment (hashHex : Str → Str)
     (hsep : hashHex "transfer/channel-5/ab/channel-1/".toList ≠ hashHex "transfer/channel-5/ab/channel-1".toList) :
-    ¬ rl_recv_full_ibcgo hashHex := by
+    ¬ rl_recv_full_prefix_ibcgo hashHex := by
   intro h
   have := h "transfer".toList "channel-0".toList "transfer".toList "channel-5".toList
     "ab/channel-1".toList (by decide) (by decide) (by decide) (by decide) (by decide)
-  unfold rlRecvDenom ics20RecvCoinDenom at this
+  unfold rlRecvDenomPreFix ics20RecvCoinDenom at this
   have e1 : ((Hop.mk "transfer".toList "channel-0".toList).str ++ ['/']).isPrefixOf "ab/channel-1".toList = false := by decide
   have e2 : extract ((Hop.mk "transfer".toList "channel-5".toList).str ++ '/' :: "ab/channel-1".toList) =
       ⟨[⟨"transfer".toList, "channel-5".toList⟩, ⟨"ab".toList, "channel-1".toList⟩], []⟩ := by decide
@@ -189,12 +115,34 @@ theorem rl_recv_full_ibcgo_false (hashHex : Str → Str)
   rw [p1, p2] at this
   exact this
 
-/-- non-vacuity of the partial theorems: an ordinary voucher returning over its channel, and a native
-    token arriving, satisfy the hypotheses. -/
+/-- **F3 (pre-fix).**  Without the base guard the send-side statement is false: the native coin
+    `transfer/channel-7/x` (a valid IBC coin denomination) is escrowed as itself and charged as
+    `ibc/HASH(transfer/channel-7/x)` … -/
+theorem send_without_guard_refuted (hashHex : Str → Str) :
+    ¬ (∀ d : Denom, (d.trace = [] → validIBCDenom d.base = true ∧ ibcSlash.isPrefixOf d.base = false) →
+        (extract d.path).validate = none → rlSendDenom hashHex d.path = ics20SendCoinDenom hashHex d) := by
+  intro h
+  have := h ⟨[], "transfer/channel-7/x".toList⟩ (fun _ => ⟨by decide, by decide⟩) (by decide)
+  have e : extract (Denom.path ⟨[], "transfer/channel-7/x".toList⟩) =
+      ⟨[⟨"transfer".toList, "channel-7".toList⟩], "x".toList⟩ := by decide
+  unfold rlSendDenom ics20SendCoinDenom at this
+  rw [e] at this
+  have hi : ibcSlash.isPrefixOf (Denom.path ⟨[], "transfer/channel-7/x".toList⟩) = false := by decide
+  rw [hi] at this
+  simp [Denom.ibcDenom, Denom.isNative] at this
+
+/-- … and the guard of fix 4b2f809 rejects exactly that coin (and the two-segment one). -/
+theorem witnesses_now_rejected :
+    hopFreeBase "transfer/channel-7/x".toList = false ∧ hopFreeBase "ab/channel-1".toList = false ∧
+    hopFreeBase "transfer/07-tendermint-0/ufoo".toList = false := by decide
+
+/-- non-vacuity: ordinary natives with several '/'-segments and a two-hop voucher are accepted. -/
 example :
-    (extract "transfer/channel-3/uatom".toList).validate = none ∧
-    (extract "transfer/channel-3/uatom".toList).hasPrefix "transfer".toList "channel-3".toList = true ∧
-    twoSegHopLike "uatom".toList = false ∧ isHopId "channel-3".toList = true ∧
-    hopFreeBase "gamm/pool/1".toList = true := by decide
+    SendAccepted ⟨[], "gamm/pool/1".toList⟩ ∧ SendAccepted ⟨[], "factory/cosmos1abc/utok".toList⟩ ∧
+    SendAccepted ⟨[⟨"transfer".toList, "channel-3".toList⟩, ⟨"transfer".toList, "07-tendermint-1".toList⟩], "uatom".toList⟩ := by
+  refine ⟨native_accepted _ (by decide) (by decide), native_accepted _ (by decide) (by decide), by decide, ?_, by decide⟩
+  intro x hx
+  simp only [List.mem_cons, List.not_mem_nil, or_false] at hx
+  rcases hx with rfl | rfl <;> decide
 
 end IbcVerif.C42
